@@ -200,7 +200,7 @@ func init() {
 			rules.S9(rc)
 			rules.S2(rc)
 			rules.TMask(rc)
-			rules.E1(rc, fileFilterName("dense_mask_filling.go", "dense_mask_inspection.go", "dense.go", "iterator.go", "iterator_mult.go"), 10)
+			rules.E1(rc, fileFilterName("dense_mask_filling.go", "dense_mask_inspection.go", "dense.go", "iterator.go", "iterator_mult.go"), 5)
 		},
 	})
 	register(&Property{
